@@ -3,3 +3,5 @@ CHECK_DEADLOCK FALSE
 CONSTANTS
   Shapes <- AllShapes
   Sizes <- SizesQ
+  HugeDeep <- HugeDeepQ
+  HugeChain <- HugeChainQ
